@@ -29,7 +29,7 @@ def gen_case(rng, max_n=8, p_fail=0.08, p_flag=0.2, mode_mix=True):
     rets = [rng.choice([0, 1, 2]) for _ in range(n)]
     fails = [i for i in range(n) if rng.random() < p_fail]
     case = dict(kind="sched", n=n, edges=[list(e) for e in edges], attrs=attrs, flags=flags, rets=rets,
-                fails=fails, maxc=rng.randint(1, 4), is_async=rng.random() < 0.3, mode="call")
+                fails=fails, maxc=rng.randint(1, 4), is_async=rng.random() < 0.3, mode="call", profile=rng.random() < 0.15)
     if mode_mix:
         r = rng.random()
         if r < 0.25 and n >= 2:
